@@ -32,6 +32,36 @@ caught={
  'C19d-m2':('C19','VC19_Complexity_Quick: "BestFitness = the greatest champion fitness of the trial" (entry added in this round before the change was seen: aggregates asked for after a WinnerStatistics lookup)'),
  'C19d-m3':('C19','VC19_Aggregates_Quick: "Trial.WinnerStatistics reports the first solved generation (also when asked again)"'),
 }
+
+caught.update({
+ 'C04d-m1':('C04','VC04_Multipoint: "C04 multipoint: genes present in one parent only come from the fitter parent" (tie broken by enabled-gene count)'),
+ 'C04d-m2':('C04','VC04_SinglePoint: "C04 child vs parent 1: all input, bias and output nodes of the ancestors are retained"'),
+ 'C04d-m3':('C04','VC04_MultipointAvg: "C04: enabled if enabled in every carrier, disabled if disabled in the only carrier"'),
+ 'C05d-m1':('C05','VC05_AddNode: "C05 add-node: a->n has weight 1 and the old recurrence flag"'),
+ 'C05d-m2':('C05','VC05_AddLinkLate: "C05 add-link: the new gene does not end in a sensor"'),
+ 'C05d-m3':('C05','VC05_ConnectSensors2: "C05 connect-sensors: the sensor had no connection before"'),
+ 'C06d-m1':('C06','VC06_Duplicate_Quick: "copy has the same genes (endpoints, weight, innovation and mutation number, recurrence and enabled flags, trait)" (nil trait after a gene with a trait)'),
+ 'C06d-m2':('C06','VC06_DuplicateModule_Quick: "module links of the copy are wired to the copy\'s own nodes, and a control node\'s trait is the copy\'s own"; VC06_SpawnModule_Quick: "organisms share no mutable state" (control-node trait added to the module template after the first run missed it)'),
+ 'C06d-m3':('C06','VC06_DuplicateLongTrait: "copy has the same traits" (entry added after the first run missed it: a trait with nine parameters)'),
+ 'C08d-m1':('C08','VC08_RepresentativeAfterSort: "C08: an organism joins a species iff it is closer than the threshold to the species\' CURRENT first organism" (entry added after the first run missed it: two speciation passes with the fitness sort in between)'),
+ 'C08d-m2':('C08','VC08_Speciate_Quick: "C08: a founded species gets the next fresh id"'),
+ 'C08d-m3':('C08','VC08_RealCompat: "C08: the second organism joins the first one\'s species iff their distance is below the threshold"'),
+ 'C10d-m1':('C09','./check C09, VC09_Redistribute_Quick: "C09: offspring reserved for a species champion never exceed the species quota" (the contract the C10 kernel assumes); ./check C10 exit 0'),
+ 'C10d-m2':('C10','VC10_Mating_Quick / VC10_Interspecies_Thorough: "C10: a species with a quota above five passes an unmodified copy of its champion\'s genome on"'),
+ 'C10d-m3':('C06','./check C06, VC06_Duplicate_Quick: "copy has the same genes (... enabled flags, trait)" (disabled gene without a trait); ./check C10 exit 0 (its template genes all carry traits)'),
+ 'C11d-m1':('C11','VC11_Module_Quick: "C11 graph: From lists exactly the successors"'),
+ 'C11d-m2':('C11','VC11_Genesis_Quick: "C11: exactly one link per enabled gene (same endpoints and recurrence flag)"'),
+ 'C11d-m3':('C11','VC11_Genesis_Quick / LateInput / SamePair: "C11 graph: an absent node is reported as nil" (the repaired typed-nil defect re-introduced)'),
+ 'C13d-m1':('C13','VC13_Flush_Quick / NeuronsFirst: "standard network after flush: output equals that of a fresh instance"'),
+ 'C13d-m2':('C13','VC13_Flush_Quick / NeuronsFirst: "standard network after flush: activation succeeds/fails as on a fresh instance" / "output equals that of a fresh instance"'),
+ 'C13d-m3':('C13','VC13_Flush_Quick / NeuronsFirst: "fast solver after flush (recursive history, forward stepping after): output equals that of a fresh instance"'),
+ 'C18d-m1':('C18','VC18_Value_F: "value is finite for |x| <= 1e300"'),
+ 'C18d-m2':('C18','VC18_Monotone_F: "monotonically non-decreasing"; VC18_Value_F: "value matches the closed-form definition" (the repaired -0.0 defect re-introduced)'),
+ 'C18d-m3':('C18','VC18_Registry: "only registered type codes have a name" / "no further names or codes are registered"'),
+ 'C20d-m1':('C20','VC20_Execute_Quick / NoObserver: "an evaluator error or a cancellation is returned to the caller" / "nothing happens beyond the protocol"'),
+ 'C20d-m2':('C20','VC20_Execute_Quick / NoObserver: "recorded generations carry their ids" (trials sharing one backing array)'),
+ 'C20d-m3':('C20','VC20_Execute_Quick / NoObserver: "a cancelled context stops the run before the next generation is evaluated"'),
+})
 missing=[]
 for name,(chk,cb) in caught.items():
     pid=name[:3]; k=name[-1]
